@@ -192,6 +192,38 @@ def type_mentions(ty, name):
     return re.search(r"(?<![A-Za-z0-9_])" + re.escape(name) + r"(?![A-Za-z0-9_])", ty or "") is not None
 
 
+class VSpan(list):
+    """a span in the coordinates of the place a helper was inlined at (so that containment and order against the caller's code mean
+    what they say); `.orig` is the span in the file, which facts.text reads"""
+    orig = None
+    extra = None
+
+
+def _virtual_spans(hb, call_sp):
+    """move every span of the inlined helper body into the open interval just behind the first character of the call"""
+    nodes = []
+    stack = [hb]
+    while stack:
+        n = stack.pop()
+        if isinstance(n, dict):
+            sp = n.get("sp")
+            if isinstance(sp, list) and len(sp) == 4:
+                nodes.append(n)
+            stack.extend(v for v in n.values() if isinstance(v, (dict, list)))
+        elif isinstance(n, list):
+            stack.extend(v for v in n if isinstance(v, (dict, list)))
+    pts = sorted({(n["sp"][0], n["sp"][1]) for n in nodes} | {(n["sp"][2], n["sp"][3]) for n in nodes})
+    rank = {p_: i for i, p_ in enumerate(pts)}
+    l0, c0 = call_sp[0], call_sp[1]
+    den = float(len(pts) + 2)
+    for n in nodes:
+        sp = n["sp"]
+        v = VSpan([l0, c0 + (rank[(sp[0], sp[1])] + 1) / den, l0, c0 + (rank[(sp[2], sp[3])] + 1) / den])
+        v.orig = getattr(sp, "orig", None) or list(sp)
+        v.extra = getattr(sp, "extra", None)
+        n["sp"] = v
+
+
 class FnInfo:
     __slots__ = ("name", "file", "mod", "impl", "trait", "node", "test", "qual")
 
@@ -339,7 +371,7 @@ class Model:
                 return c2[0]
         raise AnalysisIncomplete(f"anchor function `{name}` is ambiguous: {c}")
 
-    def scope_fns(self, f, depth=1):
+    def scope_fns(self, f, depth=1, callbacks=False):
         """f and the helper functions of the same file it calls directly (a long function split into private helpers keeps its
         obligations): free functions or methods of the same impl, not the function itself, nothing that calls f back"""
         out = [f]
@@ -356,7 +388,7 @@ class Model:
                         continue
                     if h.impl not in (None, f.impl) and sum(1 for x in self.fns(f.file) if x.name == h.name) != 1:
                         continue  # a method of another type is followed only when its name is unique in the file
-                    if any(callee_name(c) == f.name for c in walk(h.body) if c["k"] in ("Call", "MethodCall")):
+                    if not callbacks and any(callee_name(c) == f.name for c in walk(h.body) if c["k"] in ("Call", "MethodCall")):
                         continue
                     seen.add(h.name)
                     out.append(h)
@@ -364,17 +396,35 @@ class Model:
             frontier = nxt
         return out
 
-    def inlined_body(self, f, depth=1):
+    def inlined_body(self, f, depth=1, rename=False, sole=False):
         """f's body with the calls of its same-file helpers (scope_fns) replaced by the helper's body: what the function looked like before
         a block was extracted into a private helper.  A copy - the trees themselves stay as parsed.  Spans stay those of the helper's
         code (same file), `return` / `?` inside an inlined body keep their meaning of leaving the helper: rules that ask which loops,
         calls and tests a pipeline function performs read this; rules about the function's own exits read f.body."""
         import copy
-        key = (f.file, f.qual, depth)
+        key = (f.file, f.qual, depth, rename, sole)
         cache = self.__dict__.setdefault("_inl", {})
         if key in cache:
             return cache[key]
-        helpers = {g.name: g for g in self.scope_fns(f, depth) if g is not f and g.body is not None}
+        # (an arm of a traversal that was moved into a function of its own calls the traversal back: with `sole` that is still a part of f)
+        helpers = {g.name: g for g in self.scope_fns(f, depth, callbacks=sole) if g is not f and g.body is not None}
+        if sole:
+            # only what was carved out of f: helpers every caller of which (in the file) is f or another such helper
+            callers = {}
+            for g in self.fns(f.file):
+                if g.body is None or g.test:
+                    continue
+                for c in walk(g.body):
+                    if c["k"] in ("Call", "MethodCall") and callee_name(c) in helpers:
+                        callers.setdefault(callee_name(c), set()).add(g.name)
+            changed = True
+            while changed:
+                changed = False
+                for nm in list(helpers):
+                    # (a recursive function is an algorithm of its own, not a block that was moved out)
+                    if nm in callers.get(nm, set()) or not callers.get(nm, set()) <= {f.name} | set(helpers):
+                        del helpers[nm]
+                        changed = True
         body = copy.deepcopy(f.body)
 
         def rec(node, stack):
@@ -392,8 +442,35 @@ class Model:
                 nm = nm.split("::")[-1] if nm else nm
                 if nm in helpers and nm not in stack and len(stack) < depth:
                     hb = copy.deepcopy(helpers[nm].body)
+                    if rename:
+                        # a parameter is the caller's variable when the argument is one (`x`, `&x`, `&mut x`, `x.clone()`)
+                        ps = [p_["pat"].get("name") for p_ in helpers[nm].params() if not p_["self"]]
+                        ren = {}
+                        for pn, a in zip(ps, node.get("args") or []):
+                            while a.get("k") in ("Reference", "Ref", "AddrOf", "Paren") and isinstance(a.get("expr"), dict):
+                                a = a["expr"]
+                            if a.get("k") == "MethodCall" and a["method"] == "clone" and not a["args"]:
+                                a = a["recv"]
+                            if pn and a.get("k") == "Path" and len(a["segs"]) == 1 and a["segs"][0] != pn:
+                                ren[pn] = a["segs"][0]
+                        if ren:
+                            for x in walk(hb):
+                                if x["k"] == "Path" and len(x["segs"]) == 1 and x["segs"][0] in ren:
+                                    x["segs"] = [ren[x["segs"][0]]]
                     rec(hb, stack + [nm])
                     sp = node.get("sp")
+                    if rename and sp:
+                        _virtual_spans(hb, sp)
+                        # the text of the spliced block is the call followed by what the helper says (nested helpers included)
+                        extra = []
+                        for x in walk(hb):
+                            e_ = getattr(x.get("sp"), "extra", None)
+                            if e_:
+                                extra.extend(e_)
+                        own = [getattr(st_["sp"], "orig", None) or st_["sp"] for st_ in hb["stmts"] if st_.get("sp")]
+                        sp = VSpan(sp)
+                        sp.orig = list(sp)
+                        sp.extra = own + extra
                     orig = dict(node)
                     orig["inlined_call"] = True
                     node.clear()
@@ -403,6 +480,18 @@ class Model:
         rec(body, [])
         cache[key] = body
         return body
+
+    def inlined_fn(self, f, depth=2):
+        """f as it read before private helpers were carved out of it: same name / file / node, the body with every helper that only f
+        (or another such helper) calls put back in place, parameters named as the caller's variables"""
+        body = self.inlined_body(f, depth, rename=True, sole=True)
+
+        class _Inl:
+            pass
+        o = _Inl()
+        o.name, o.file, o.mod, o.impl, o.trait, o.node, o.test, o.qual, o.body, o.line = f.name, f.file, f.mod, f.impl, f.trait, f.node, f.test, f.qual, body, f.line
+        o.params = f.params
+        return o
 
     def arg_for_param(self, caller, helper, pname):
         """the expression `caller` passes for parameter `pname` of `helper` (first call found), or None"""
@@ -635,6 +724,38 @@ def bool_eval(e, atom):
     if k == "Lit" and e.get("value") in (True, False, "true", "false"):
         return e.get("value") in (True, "true")
     return atom(e)
+
+
+def expand_bool_locals(cond, body, depth=3):
+    """a copy of the boolean expression `cond` in which every atom that is an immutable local of `body` bound exactly once by
+    `let x = <expr>;` is replaced by that expression (so `let is_imported = ctx.imports.contains(p); if !is_own && !is_imported`
+    reads like the condition it abbreviates).  Nodes keep their spans, so facts.text still answers for every atom."""
+    import copy
+    lets = {}
+    for l in find(body, "Local"):
+        pat = l["pat"]
+        if pat["k"] == "PType" and isinstance(pat.get("pat"), dict):
+            pat = pat["pat"]
+        if pat["k"] == "PIdent" and l.get("init") is not None and pat.get("sub") is None:
+            lets.setdefault(pat["name"], []).append(None if pat.get("mut") else l["init"])
+
+    def rec(e, d):
+        k = e.get("k")
+        if k == "Paren":
+            return dict(e, expr=rec(e["expr"], d))
+        if k == "Unary" and e["op"] == "!":
+            return dict(e, expr=rec(e["expr"], d))
+        if k == "Binary" and e["op"] in ("&&", "||"):
+            lk, rk = ("lhs", "rhs") if "lhs" in e else ("left", "right")
+            out = dict(e)
+            out[lk], out[rk] = rec(e[lk], d), rec(e[rk], d)
+            return out
+        if k == "Path" and len(e["segs"]) == 1 and d < depth:
+            inits = lets.get(e["segs"][0])
+            if inits and len(inits) == 1 and inits[0] is not None:
+                return {"k": "Paren", "sp": inits[0]["sp"], "expr": rec(copy.deepcopy(inits[0]), d + 1), "expanded": e["segs"][0]}
+        return e
+    return rec(cond, 0)
 
 
 def bool_atoms(e):
